@@ -620,3 +620,15 @@ def check_sentinel_default(ctx, prog, fn, recv=None, rule='T14.default', model=N
                 ctx.ob(rule, fn.fq, 'with a default given, the function does not raise its own "missing" error', False, loc=fn.loc,
                        path=p.describe())
     return n
+
+
+def params_read(ctx, fn, rule='T19p', why='no accepted input is silently dropped'):
+    """Every named parameter of fn is read somewhere in its body."""
+    a_ = fn.node.args
+    pnames = [x.arg for x in a_.posonlyargs + a_.args + a_.kwonlyargs] + ([a_.vararg.arg] if a_.vararg else []) + \
+        ([a_.kwarg.arg] if a_.kwarg else [])
+    used = {n.id for n in ast.walk(fn.node) if isinstance(n, ast.Name) and isinstance(n.ctx, ast.Load)}
+    for pn in pnames:
+        if pn in ('self', 'cls') or pn.startswith('_'):
+            continue
+        ctx.ob(rule, fn.fq, 'parameter `%s` is read by the function (%s)' % (pn, why), pn in used, loc=loc(fn))
